@@ -89,7 +89,8 @@ let c04_level ?(jit=false) orc b tag (reg : f32 op list) nout (vars : nat list) 
         Some tr
       end in
   Printf.bprintf b " | o%d" tag;
-  List.iter (fun sp -> let (outs, _) = run_point orc reg nout (inputs_of sp) in buf_bits b outs) samples;
+  List.iter (fun sp -> let (outs, _) = run_point orc reg nout (inputs_of sp) in
+    List.iter (fun f -> let v = int_of_f32 f in Printf.bprintf b " %d" (if v = 0x80000000 then 0 else v)) outs) samples;
   tr
 
 (* A trace returned by the JIT is judged against the model's own for the same input:
@@ -449,8 +450,8 @@ let c08 s b =
   let ((ok, v), e) = check_mesh (n_of_int nv) verts tris in
   (* six times the signed volume is v * 2^e: print the sign and, scaled to a float, the volume itself *)
   let vf = (float_of_z v) *. (2.0 ** float_of_int (int_of_z e)) /. 6.0 in
-  ignore vf;
-  Printf.bprintf b "manifold %d | volsign %d" (if ok then 1 else 0) (match v with Z0 -> 0 | Zpos _ -> 1 | Zneg _ -> -1)
+  (* the sign of the exact volume, with the same dead band as the harness (|volume| <= 1e-6 counts as zero) *)
+  Printf.bprintf b "manifold %d | volsign %d" (if ok then 1 else 0) (if vf > 1e-6 then 1 else if vf < -1e-6 then -1 else 0)
 
 (* ---- C09: task counts of the raster fan-out and of the octree expansion -------------- *)
 let c09 s b =
